@@ -1036,6 +1036,71 @@ def _otround(ip, a, k):
     return ops.floor(ops.add(a[0], Fraction(1, 2)))
 
 
+class ElemV:
+    """minimal model of an lxml element: tag, attribute map, children; `base_len` stands for
+    children that existed before (unknown number)"""
+
+    def __init__(self, tag, attrib=None, base_len=0, nsmap=None):
+        self.tag = tag
+        self.attrib = attrib if attrib is not None else {}
+        self.children = []
+        self.base_len = base_len
+        self.nsmap = nsmap or {}
+        self.parent = None
+
+    def length(self, ip):
+        return ops.add(self.base_len, len(self.children))
+
+    def iterate(self, ip):
+        if not (isinstance(self.base_len, int) and self.base_len == 0):
+            raise EngineError("iteration over an element with unknown children")
+        return list(self.children)
+
+    def get_attr(self, ip, name):
+        if name in ("tag", "attrib", "nsmap", "children"):
+            return getattr(self, name)
+        if name == "append":
+            def append(ip_, a, k):
+                self.children.append(a[0])
+                if isinstance(a[0], ElemV):
+                    a[0].parent = self
+            return I.PyFn("append", append)
+        if name == "getparent":
+            return I.PyFn("getparent", lambda ip_, a, k: self.parent)
+        if name == "get":
+            return I.PyFn("get", lambda ip_, a, k: self.attrib.get(a[0], a[1] if len(a) > 1 else None))
+        raise EngineError(f"lxml element .{name} is not modelled")
+
+    def truthy(self):
+        return True
+
+
+@external("lxml.etree.SubElement")
+def _subelement(ip, a, k):
+    parent, tag = a[0], a[1]
+    el = ElemV(tag, dict(a[2]) if len(a) > 2 else {}, 0, k.get("nsmap"))
+    if not isinstance(parent, ElemV):
+        raise EngineError("SubElement of a non-modelled parent")
+    parent.children.append(el)
+    el.parent = parent
+    return el
+
+
+@external("lxml.etree.Element")
+def _element(ip, a, k):
+    return ElemV(a[0], {}, 0, k.get("nsmap"))
+
+
+@external("lxml.etree.QName")
+def _qname(ip, a, k):
+    el = a[0]
+    tag = el.tag if isinstance(el, ElemV) else el
+    if isinstance(tag, str):
+        local = tag[tag.index("}") + 1 :] if "}" in tag else tag
+        return I.NS(localname=local, text=tag)
+    raise EngineError("QName of symbolic tag")
+
+
 # ------------------------------------------------------------------ vlib (symbolic half)
 
 
